@@ -84,7 +84,7 @@ Resume(c) == /\ c \in {"P", "S"} /\ st[c] = "up" /\ ~reading[c] /\ ~closedSrv
              /\ hist' = Append(hist, [a |-> "resume", c |-> c, gone |-> pending[c] # "none", free |-> FreeOf(st', reading'), cross |-> Cross, selfsub |-> SelfSub,
                                        wk |-> WillKind, will |-> IF WillKind = "none" THEN "-" ELSE IF pending[c] = "bad" THEN "due" ELSE IF pending[c] = "disconnect" THEN "never" ELSE "-"])
 
-AttackKinds == {"pre-garbage", "pre-truncated-connect", "pre-cut-in-header", "pre-cut-in-body", "pre-huge-remlen",
+AttackKinds == {"pre-garbage", "pre-truncated-connect", "pre-cut-in-header", "pre-cut-in-body", "pre-huge-remlen", "pre-remlen-five-bytes",
                 "post-truncated-publish", "post-garbage", "post-huge-remlen", "post-cut-mid-packet", "post-bad-flags",
                 "post-second-connect", "post-zero-length-topic"}
 Next == steps < MaxSteps /\
